@@ -1235,10 +1235,11 @@ static qtreetbl_obj_t *put_obj(qtreetbl_t *tbl, qtreetbl_obj_t *obj,
     int cmp = tbl->compare(name, namesize, obj->name, obj->namesize);
     if (cmp == 0) {  // existing key found
         void *copydata = qmemdup(data, datasize);
-        if (copydata != NULL) {
+        if (copydata != NULL || data == NULL || datasize == 0) {
+            // an empty value replaces the old one too (stored as NULL, 0)
             free(obj->data);
             obj->data = copydata;
-            obj->datasize = datasize;
+            obj->datasize = (copydata != NULL) ? datasize : 0;
         }
     } else if (cmp < 0) {
         obj->left = put_obj(tbl, obj->left, name, namesize, data, datasize);
